@@ -393,7 +393,7 @@ func runC08(c *mon.Ctx) {
 			}
 		}
 		// (b) random multi-key proposals
-		nB := c.Scale(6000, 240000) / len(versions)
+		nB := c.Scale(6000, 720000) / len(versions)
 		for k := 0; k < nB; k++ {
 			var cur *ref.Value
 			var curEv gmsl.PDU
